@@ -89,9 +89,120 @@ def replay(case, agg, what=WHAT, known=KNOWN_SWITCHES):
     from vfy import hooks
 
     hooks.install_line_hook()
+    if "sweep" in case:
+        if isinstance(case["sweep"], list):
+            run_sweep(agg, "AND", only=case["sweep"])
+            run_sweep(agg, "OR", only=case["sweep"])
+        return
     run_one(case["prog"], case["rows"], agg, what, known)
 
 
 def finish(m, tier):
     c = m["counters"]
     return {"function_coverage": {k[3:]: v for k, v in sorted(c.items()) if k.startswith("fn:")}}
+
+
+# ------------------------------------------------------------------ systematic operand-pair sweep
+POOL = ["0", "1", "2", "9", "10", "11", "100", "3.5", "10.0", "-1", " 4 ", "", "x", "abc"]
+CMP2 = ["gt", "lt", "above", "below", "after", "before", "equals"]
+CMP3 = ["between", "inside", "from_to", "range", "beyond", "outside"]
+
+
+def sweep_rows():
+    rows = [["a", "b", "c"]]
+    for a in POOL:
+        for b in POOL:
+            rows.append([a, b, "5"])
+    for a in POOL:
+        rows.append([a])  # b and c absent
+    return rows
+
+
+def sweep_programs():
+    H = lambda n: ["hdr", n]
+    I = lambda n: ["int", n]
+    F = lambda name, args: ["fn", name, args, []]
+    progs = []
+    for f in CMP2:
+        progs.append(F(f, [H("a"), H("b")]))
+        for t in (0, 2, 10):
+            progs.append(F(f, [H("a"), I(t)]))
+            progs.append(F(f, [I(t), H("b")]))
+        progs.append(F(f, [F("add", [H("a"), I(0)]), H("b")]))
+        progs.append(F(f, [H("a"), F("multiply", [H("b"), I(1)])]))
+        progs.append(F(f, [F("int", [H("a")]), F("float", [H("b")])]))
+    for f in CMP3:
+        progs.append(F(f, [H("a"), H("b"), H("c")]))
+        progs.append(F(f, [H("c"), H("a"), H("b")]))
+        progs.append(F(f, [H("a"), I(2), I(10)]))
+        progs.append(F(f, [H("a"), I(10), I(2)]))
+        progs.append(F(f, [F("add", [H("a"), I(0)]), H("b"), I(10)]))
+    for rhs in (I(0), I(2), I(10), ["str", "x"], ["str", "10"], H("b")):
+        progs.append(["eq", H("a"), rhs])
+        progs.append(["fn", "not", [["eq", H("a"), rhs]], []])
+    progs.append(["eq", F("add", [H("a"), I(0)]), I(10)])
+    progs.append(["eq", F("int", [H("a")]), H("b")])
+    for f in ("empty", "exists"):
+        progs.append(F(f, [H("b")]))
+    progs.append(F("all", [H("a"), H("b")]))
+    progs.append(F("missing", [H("a"), H("b")]))
+    progs.append(F("in", [H("a"), ["str", "1|10|x"]]))
+    progs.append(F("in", [H("b"), ["str", "2| 9 |abc"]]))
+    progs.append(H("b"))
+    return progs
+
+
+def run_sweep(agg, mode="AND", only=None):
+    """every comparison form over every ordered pair of operand classes; lines are independent, so each line
+    is decided on its own (a line the docs leave open is skipped, the others are still compared)"""
+    from vfy import diffrun, model
+
+    rows = sweep_rows()
+    for comp in ([only] if only is not None else sweep_programs()):
+        prog = {"scan": "1*", "comps": [comp], "mode": mode}
+        m = model.Model(prog, rows)
+        mtrace = m.run(lenient=True)
+        real = diffrun.real_run(prog, rows, agg, fname="sweep.csv")
+        evs = real["rec"].lines
+        text = real["text"]
+        if real["exc"] or len(evs) != len(mtrace):
+            agg.violation("sweep-run", {"sweep": lang.tolist(comp)}, {"program": text, "exc": real["exc"], "events": len(evs)}, "sweep|" + lang.skeleton(comp))
+            continue
+        err_lines = {e[0] for e in real["errors"]}
+        bad = None
+        decided = 0
+        for ev, mt in zip(evs, mtrace):
+            if mt["matched"] is None:
+                continue
+            decided += 1
+            if ev["pln"] in err_lines:
+                bad = {"kind": "unexpected-error", "line": ev["line"], "errors": [e for e in real["errors"] if e[0] == ev["pln"]][:2]}
+                break
+            if bool(ev["ret"]) != mt["matched"]:
+                f1 = comp[0] == "fn" and comp[1] in ("lt", "below", "before")
+                if f1 and ev["ret"] and not mt["matched"]:
+                    # known finding F1: equal operands
+                    m2 = model.Model(prog, rows, emulate=("F1",))
+                    mt2 = [t for t in m2.run(lenient=True) if t["pln"] == mt["pln"]][0]
+                    if mt2["matched"] is True:
+                        agg.count("sweep_f1_lines")
+                        continue
+                bad = {"kind": "match", "line": ev["line"], "real": ev["ret"], "model": mt["matched"]}
+                break
+        shape = "sweep|" + lang.skeleton(comp) + "|" + mode
+        if bad:
+            agg.violation("sweep-" + bad["kind"], {"sweep": lang.tolist(comp)}, dict(bad, program=text), shape)
+        else:
+            agg.held(shape, True, sample={"program": text, "lines_decided": decided, "lines": len(mtrace)})
+            agg.count("sweep_lines_decided", decided)
+    if agg.counters.get("sweep_f1_lines"):
+        agg.known_finding("F1", {"sweep": "lt/below/before on equal operands"}, {"lines": agg.counters["sweep_f1_lines"]}, "sweep|F1")
+
+
+_orig_run_shard = run_shard
+
+
+def run_shard(spec, agg, prop="C01", features=FEATURES, what=WHAT, known=KNOWN_SWITCHES):  # noqa: F811
+    _orig_run_shard(spec, agg, prop, features, what, known)
+    if prop == "C01" and spec["shard"] in (0, 1):
+        run_sweep(agg, "AND" if spec["shard"] == 0 else "OR")
